@@ -15,37 +15,58 @@ DRIVER = "C30"
 GENERATED = ["http"]
 SOURCES = ["src/allmydata/storage/http_server.py", "src/allmydata/storage/http_common.py"]
 DESIGN_REF = "DESIGN.md §2 C30"
-TECHNIQUE = ("Lean 4 theorems over an executable state-machine model of HTTPServer (route table generated from the live "
-             "klein app, swissnum check, _extract_secrets with CPython's lenient base64 decoder, UploadsInProgress, "
-             "write-enabler check, all twelve handlers over an abstract storage state); differential correspondence of "
-             "seeded request histories through the real twisted.web resource tree (status, body, state change, final "
-             "state) and of _extract_secrets / b64decode / the werkzeug URL map at function granularity; "
-             "implementation-side monitor on the raw storage directory and upload tables")
-LEVEL_TEXT = ("Non-interference theorems (state unchanged, response independent of the state, no share byte) proved for every "
-              "request, route and state of the model; the model is tied to http_server.py by replaying random request "
-              "histories with mutated headers through the real resource tree and comparing every status/body/state.")
-LEVEL_NOTE = ("Lean kernel + standard axioms; model hand-written, route table and enum/whitespace tables generated from the "
-              "live code; timing_safe_compare = equality; TLS and the NURL certificate pin out of scope.")
+TECHNIQUE = ("Lean 4 theorems over an executable state-machine model of HTTPServer (route table, secret names, auth prefix, "
+             "whitespace table and the all-routes-wrapped fact generated from the live klein app; swissnum check; "
+             "_extract_secrets with CPython's lenient base64 decoder and strict UTF-8; UploadsInProgress; write-enabler check "
+             "with the recorded nodeid explicit; all twelve handlers over an abstract storage state; upload timeout / "
+             "disconnect and share-directory migration as request-independent events); a declarative specification "
+             "`Authorized` proved equivalent to the executable gate; differential correspondence of a fixed corpus and of "
+             "seeded request histories through the real twisted.web resource tree — on fresh connections (StubTreq) and as "
+             "sequences of raw HTTP/1.1 requests down persistent in-memory connections to a twisted.web Site — comparing "
+             "status, body, state change and final state, plus _extract_secrets / b64decode / UTF-8 / the werkzeug URL map at "
+             "function granularity; implementation-side monitor on the raw storage directory and the live BucketWriters")
+LEVEL_TEXT = ("Proved for every request, route, state and history of the model: no_swissnum_no_effect (state unchanged, 401/400/404, "
+              "no share byte, answer independent of the state), served_iff_authorized + authorization_is_pure (the handler runs "
+              "iff the swissnum header is first and every secret value is well formed with exactly the required kinds; the "
+              "decision does not depend on the state or on earlier requests), unauthorized_requests_are_noops (histories), "
+              "bad_secrets_no_effect, upload_secret_required, uploads_change_only_by_their_own_secret / "
+              "uploads_change_only_by_secret_or_timeout (an upload in progress is changed or removed only by a served write / "
+              "abort presenting its secret or by its own timeout / disconnect — allocations included: "
+              "allocate_leaves_uploads_alone), enabler_required, rtw_refused_iff_enabler_differs, "
+              "enabler_decision_ignores_nodeid, rtw_refused_changes_nothing. The model is tied to http_server.py / server.py "
+              "by the corpus and the random request histories (mutated headers, concurrent uploads with different secrets, "
+              "re-allocations, wrong enablers, keep-alive retries, migrated share directories, timeouts).")
+LEVEL_NOTE = ("Lean kernel + standard axioms; model hand-written, route / enum / whitespace tables generated from the live code "
+              "and pinned by named theorems; timing_safe_compare = equality. Not covered by a theorem: that the real server "
+              "keeps no per-connection memory (monitor + correspondence over keep-alive sequences only); TLS and the NURL "
+              "certificate pin (out of scope).")
 RULE = ("the model is per request and stateless with respect to connections: what preceded a request on its keep-alive "
         "connection must not matter, and every response is compared with the model's; "
         "a case is one HTTP request sent through HTTPServer.get_resource() — on a fresh connection (StubTreq) or as one of a "
-        "sequence of raw HTTP/1.1 requests down a persistent in-memory connection to a twisted.web Site — (or one call of _extract_secrets / b64decode / "
-        "url_map.match at function level); distinct = distinct (route, swissnum-mutation, secret-mutation, status, "
-        "state-changed) tuples plus distinct function-level inputs; non-trivial = the server holds at least one share or "
-        "upload when the request arrives, or the function-level input is non-empty")
-TRUSTED = ["lean/Tahoe/Http/{Codec,Auth,Marshal,Server}.lean are hand transcriptions of http_server.py handlers over an "
-           "abstract storage state (finished share = bytes + lease secrets, upload = cells + secret, mutable share = "
-           "enabler + bytes + lease secrets)",
+        "sequence of raw HTTP/1.1 requests down a persistent in-memory connection to a twisted.web Site — or one control event "
+        "(upload timeout / disconnect, share directory served by another node), or one call of _extract_secrets / b64decode / "
+        "utf-8 decode / url_map.match at function level; the fixed corpus (one minimal history per known mechanism) runs first "
+        "and alone under VERIF_CORPUS_ONLY=1; distinct = distinct (route, swissnum-mutation, secret-mutation, path-mutation, "
+        "status, state-changed) tuples plus distinct function-level inputs; non-trivial = the server holds at least one share "
+        "or upload when the request arrives, or the function-level input is non-empty")
+TRUSTED = ["lean/Tahoe/Http/{Codec,Auth,Marshal,Server}.lean are hand transcriptions of http_server.py / server.py handlers over an "
+           "abstract storage state (finished share = bytes + lease secrets, upload = cells + secret + lease, mutable share = "
+           "enabler + bytes + lease secrets + recorded nodeid)",
            "twisted.web's HTTP parser, klein/werkzeug dispatch, werkzeug header parsers, cbor2 and pycddl are exercised, "
            "not modelled: the driver receives parsed Range / Content-Range values and decoded bodies",
-           "harness/props/c30.py Stack: StubTreq + a frozen twisted Clock replace the reactor; cputhreadpool is disabled"]
+           "harness/props/c30.py Stack: StubTreq / twisted.test.iosim connections to a twisted.web Site + a frozen twisted Clock "
+           "replace the reactor; cputhreadpool is disabled; upload timeouts are fired by calling the BucketWriter's own delayed "
+           "call; which upload secret created which upload is recorded by the harness from the answers to allocations"]
 ASSUMPTIONS = ["timing_safe_compare(a, b) == (a == b) (it compares SHA-256d tags under a fresh random key)",
                "a storage index holds either immutable or mutable shares; the disk does not fill up; bodies <= 64 KiB",
                "header values reach the handler with optional whitespace stripped (Twisted) and contain no CR/LF",
                "share numbers in URLs are ASCII digits (werkzeug's \\d+ also matches other Unicode digits)",
                "lenient base64 (characters outside the alphabet skipped, text after the padding ignored) is accepted "
                "behaviour: the statement's 'malformed secret' is taken as: no key/value separator, unknown key, empty or "
-               "undecodable value, lease secret of the wrong length, or a required secret absent"]
+               "undecodable value, lease secret of the wrong length, or a required secret absent",
+               "write enablers of a length other than 32 are stored zero-padded / truncated (struct 32s): modelled as the code does",
+               "that the running server keeps no state between requests other than the storage state (no per-connection "
+               "memory) is checked by monitor and correspondence, not proved"]
 
 import base64
 import os
